@@ -55,7 +55,7 @@ Fixpoint conv_until_nan (l : list Z) (n : Z) : Z :=
    left-to-right order if there is more than one)" *)
 Definition conv_spec (fn : Z) (l : list Z) : Z :=
   if (fn =? 10) || (fn =? 11) then Z.of_nat (length l)
-  else if (fn =? 4) || (fn =? 12) then Z.min 2 (Z.of_nat (length l))
+  else if (fn =? 4) || (fn =? 12) || (fn =? 102) then Z.min 2 (Z.of_nat (length l))
   else if fn =? 17 then 0
   else Z.min 1 (Z.of_nat (length l)).
 
@@ -65,7 +65,7 @@ Definition conv_model (fn : Z) (l : list Z) : Z :=
     match l with [] => 0 | [_] => 1 | _ => conv_until_nan l 0 end
   else if fn =? 4 then
     match l with [] => 0 | [_] => 1 | y :: _ => if is_nan y then 1 else 2 end
-  else if fn =? 12 then Z.min 2 (Z.of_nat (length l))
+  else if (fn =? 12) || (fn =? 102) then Z.min 2 (Z.of_nat (length l))
   else if fn =? 17 then 0
   else Z.min 1 (Z.of_nat (length l)).
 (* ---------- round ---------- *)
